@@ -91,9 +91,44 @@ func driveReshare(rc *RunCtx) {
 	w := pr.W
 	pr.AttachEraseOrdering()
 	mode := sc.Str("mode", "complete")
+	if mode == "crash" {
+		// a fault-free FIFO run of the same scenario on the same entropy tells how many reads each node
+		// makes (a node's reads do not depend on the delivery order); the failing read is placed in that range
+		ref := rc.SetupProto("ref", true)
+		if ref == nil {
+			return
+		}
+		if !ref.W.RunSchedule(&SchedConfig{Strategy: "fifo"}) || ref.W.Violation != nil {
+			rc.Fail("reference-run", "FIFO reference run failed: %v", ref.W.Violation)
+			return
+		}
+		node := sc.Int("crash_node", 0) % len(w.Nodes)
+		for i := 0; i < len(w.Nodes) && ref.W.Nodes[node].Rand.Count == 0; i++ {
+			node = (node + 1) % len(w.Nodes)
+		}
+		cnt := ref.W.Nodes[node].Rand.Count
+		if cnt > 0 {
+			k := 1 + sc.Int("crash_pos", 500)*cnt/1000
+			if k > cnt {
+				k = cnt
+			}
+			w.Nodes[node].Rand.FailAt = k
+			pr.Sample["crash_node"], pr.Sample["crash_read"], pr.Sample["reads_of_that_node"] = w.Nodes[node].Name, k, cnt
+		}
+		restore := w.TrackLocks()
+		defer restore()
+	}
 	drained := w.RunSchedule(&sc.Sched)
 	if rc.Failed() {
 		return
+	}
+	if mode == "crash" {
+		for _, n := range w.Nodes {
+			if n.Rand.Fired && !n.Crashed {
+				// the failed read did not end the call: the library went on with whatever the reader left
+				rc.Res.Probes["entropy_failure_did_not_stop_the_call"]++
+			}
+		}
 	}
 	msg := big.NewInt(int64(1000 + sc.Run))
 	pr.Sample["mode"] = mode
@@ -162,7 +197,7 @@ func driveReshare(rc *RunCtx) {
 				}
 			}
 		}
-	case "cut", "silence":
+	case "cut", "silence", "crash":
 		// the run stopped somewhere (or one party went silent and the rest drained). Unless every
 		// new member had already acknowledged, all old key data must be intact and usable.
 		acked := pr.allAcksEmitted()
@@ -285,14 +320,14 @@ func genC04(tier string, seed uint64, run int) *Scenario {
 	}
 	p := map[string]interface{}{"proto": proto}
 	nodes := fillProtoParams(r, tier, proto, p)
-	mode := run % 3
+	mode := run % 4
 	if proto == "ec-reshare" {
-		// run%ecEvery and run%3 are not independent (quick: every ECDSA run would get the same mode):
+		// run%ecEvery and run%4 are not independent (quick: every ECDSA run would get the same mode):
 		// ECDSA runs cycle through the modes by their own ordinal
 		k := run / ecEvery
-		mode = k % 3
+		mode = []int{0, 3, 1, 2}[k%4]
 		// proofs enabled in three of four ECDSA runs (the production path)
-		p["noproofs"] = k%4 == 3
+		p["noproofs"] = k%5 == 4
 		p["signsubsets"] = 1
 		if k%8 == 0 {
 			// a new committee with a threshold above 2 (powers beyond the square in the share-point evaluation)
@@ -316,6 +351,24 @@ func genC04(tier string, seed uint64, run int) *Scenario {
 		p["mode"] = "silence"
 		sc.Sched.SilenceNode = r.IntN(nodes)
 		sc.Sched.SilenceAt = 1 + r.IntN(nodes*nodes+2)
+	case 3:
+		// one party's entropy source fails at one of its reads: the call in progress panics out of the
+		// library in mid-step (state half-updated, nothing more sent). Position: anywhere, or biased
+		// towards the last reads (a new ECDSA member's are the factorisation proofs it builds between
+		// storing its new share and acknowledging) or the first ones
+		p["mode"] = "crash"
+		p["crash_node"] = r.IntN(nodes)
+		if proto == "ec-reshare" && r.IntN(3) > 0 {
+			p["crash_node"] = 3 + r.IntN(nodes-3) // a new member
+		}
+		switch r.IntN(3) {
+		case 0:
+			p["crash_pos"] = r.IntN(1000)
+		case 1:
+			p["crash_pos"] = 900 + r.IntN(100)
+		default:
+			p["crash_pos"] = r.IntN(100)
+		}
 	}
 	return sc
 }
